@@ -363,8 +363,9 @@ def _one(args):
             hit = [f for f in new_fail if f[0] == want_rule or f[0].startswith(want_rule + '.')]
             if 'construct' in variant:
                 hit = [f for f in hit if variant['construct'] in f[1]]
-            if hit and not errors:
-                return variant['id'], 'detected', f'{hit[0][0]} at {hit[0][1]}'
+            if hit:
+                # a violation reported by a completed rule stands beside an analysis error of another rule (exit 1)
+                return variant['id'], 'detected', f'{hit[0][0]} at {hit[0][1]}' + (' (beside an analysis error)' if errors else '')
             if errors:
                 return variant['id'], 'error-instead', '; '.join(errors)[:200]
             return variant['id'], 'MISSED', f'expected {want_rule} to fire; new failures: {sorted(new_fail)[:3]}'
